@@ -137,7 +137,9 @@ func VerifC01InsiderRetry(gt int, mid int) {
 	if mid == 1 {
 		e2, h2, err := rcv.OpenEnvelopeHeaders(env2, g)
 		verif_assume(err == nil)
-		m2, err := rcv.OpenEnvelopePayload(ctx, e2, h2, gpk, rcvMD.Device(), verif_anyCid("cid2"))
+		c2 := verif_anyCid("cid2")
+		verif_assume(!c.Equals(c2)) // content addressing: another entry has another CID
+		m2, err := rcv.OpenEnvelopePayload(ctx, e2, h2, gpk, rcvMD.Device(), c2)
 		if err == nil {
 			verif_assert(verif_bytesEq(m2.Plaintext, p2), "C01.retry: the honest message in between opens to its payload")
 		}
